@@ -62,16 +62,10 @@ func functionalScenarios(tier string) []engine.Scenario {
 	for _, b := range bases(tier) {
 		b := b
 		// deviation bound. quick: 1 everywhere, 2 for the fully packed and the single-slot base at LogN 8.
-		// thorough: 2 for every base at LogN 8 and for the fully packed and the single-slot base at LogN 9, 1 elsewhere
-		// (LogN 10 included).
+		// thorough: 2 for every base at LogN 8, 9 and 10.
 		full := b.logSlots == b.logN-1
 		bound := 1
-		switch {
-		case b.logN == 8 && (full || b.ctGap != 0):
-			bound = 2
-		case tier == "thorough" && b.logN == 8:
-			bound = 2
-		case tier == "thorough" && b.logN == 9 && (full || b.ctGap != 0):
+		if tier == "thorough" || (b.logN == 8 && (full || b.ctGap != 0)) {
 			bound = 2
 		}
 		mk := func(first, alt int) engine.Scenario {
@@ -145,6 +139,7 @@ func scenarios(tier string) []engine.Scenario {
 	scs = append(scs, defaultScenarios(tier)...)
 	scs = append(scs, functionalScenarios(tier)...)
 	scs = append(scs, copyScenarios(tier)...)
+	scs = append(scs, sequenceScenarios(tier)...)
 	scs = append(scs, dftScenarios(tier)...)
 	scs = append(scs, mod1Scenarios(tier)...)
 	return scs
@@ -161,7 +156,7 @@ func main() {
 		Level: "exploration",
 		Rule: "One leaf = one parameter set instantiated through the public constructors with freshly generated keys. " +
 			"Item 1: every exported default literal at LogN 8..10 and every reduced configuration: levels of every polynomial of every generated key, Galois set == advertised set, key requests recorded during a real bootstrap. " +
-			"Item 2: configurations within a deviation bound of the ordinary one over 14 option axes x (LogN, LogSlots) bases (quick: <=1 deviation on every base of LogN 8,9 and <=2 on the fully packed and the single-slot base of LogN 8; thorough: <=2 on every base of LogN 8 and on those two bases of LogN 9, <=1 elsewhere incl. LogN 10), plus the full product ring relation x sparsity x batch size on a ShallowCopy; one batch of ciphertexts with pairwise distinct slot values each. " +
+			"Item 2: configurations within a deviation bound of the ordinary one over 14 option axes x (LogN, LogSlots) bases (quick: <=1 deviation on every base of LogN 8,9 and <=2 on the fully packed and the single-slot base of LogN 8; thorough: <=2 on every base of LogN 8, 9 and 10), plus the full product ring relation x sparsity x batch size on a ShallowCopy; one batch of ciphertexts with pairwise distinct slot values each. " +
 			"Item 3: CoeffsToSlots∘SlotsToCoeffs for every depth split x slot count, mod1 evaluator on a grid of its interval for every literal option. " +
 			"distinct_nontrivial counts distinct (configuration, observed precision/levels) classes.",
 		Assumptions: []string{
@@ -175,7 +170,7 @@ func main() {
 		QuickBudget:    quickBudget,
 		ThoroughBudget: thoroughBudget,
 		Expect: func(tier string) []string {
-			e := []string{"axis=default", "axis=copy", "calibration=hit", "dft=sparse=true", "dft=sparse=false",
+			e := []string{"axis=default", "axis=copy", "seq=first=full", "seq=second=batch3-sparser-small", "seq=res0", "seq=res1", "seq=res2", "calibration=hit", "dft=sparse=true", "dft=sparse=false",
 				"mod1type=0", "mod1type=1", "mod1type=2", "mod1da=0", "mod1da=1", "mod1da=2", "mod1da=3", "mod1inv=0", "mod1inv=5", "mod1inv=7",
 				"default=DefaultParametersSparse[0]", "default=DefaultParametersDense[0]", "defaultLogN=8", "defaultLogN=9", "defaultLogN=10",
 				"keys=all-generated-keys-requested", "rejected=constructor-error", "encaps=on", "encaps=off", "ringkeys=none", "ringkeys=degree-switch", "ringkeys=conjugate-invariant",
